@@ -279,13 +279,18 @@ class Tokenizer(object):
                 if next_char != token:
                     self.pushChar(next_char)
                 else:
-                    next_char = _read1()
-                    num = ord(next_char)
-                    if num >= 64:
-                        token = chr(num-64)
+                    third_char = _read1()
+                    if not third_char:
+                        # ^^ at the very end of the input is not a ^^X
+                        # triple: two ordinary superscript characters
+                        self.pushChar(next_char)
                     else:
-                        token = chr(num+64)
-                    code = whichCode(token)
+                        num = ord(third_char)
+                        if num >= 64:
+                            token = chr(num-64)
+                        else:
+                            token = chr(num+64)
+                        code = whichCode(token)
 
             # Just go to the next character if you see one of these...
             if code in (CC_IGNORED, CC_INVALID):
